@@ -29,6 +29,27 @@ pub mod c18;
 pub mod c19;
 pub mod c20;
 
+/// A fresh plain engine; in the "parallel-cutoff0" sub-run (EGGLOG_PARALLEL_*_CUTOFF=0 in the environment) it gets
+/// 4 threads so that the parallel implementations of insert / delete / rehash / rebuild / container rebuild run.
+pub fn engine() -> EGraph {
+    if std::env::var("VERIF_SUBRUN").as_deref() == Ok("parallel-cutoff0") {
+        EGraph::default().with_num_threads(3)
+    } else {
+        EGraph::default()
+    }
+}
+
+/// Re-run the calling check once more in a sub-process with all parallel cut-offs at 0 (see `engine`).
+pub fn parallel_subrun(rep: &crate::fw::Report) {
+    if std::env::var("VERIF_SUBRUN").is_err() {
+        let env: Vec<(String, String)> = ["DB_LEVEL_OP", "INDEX_CONSTRUCTION", "REBUILD", "INTRA_CONTAINER", "INTER_CONTAINER", "TABLE_OP"]
+            .iter()
+            .map(|n| (format!("EGGLOG_PARALLEL_{n}_CUTOFF"), "0".to_string()))
+            .collect();
+        rep.run_self_with_env("parallel-cutoff0", &env);
+    }
+}
+
 /// Deterministic pseudo-random stream derived from the case itself (a pure
 /// function of the input; used only to choose which observations to make).
 pub struct Probe(pub u64);
